@@ -416,7 +416,28 @@ func cmdConc(args []string) {
 		on := runParsed(bg, p, copyVars(c.RawVars), fresh(), true)
 		off := runParsed(bg, p, copyVars(c.RawVars), fresh(), false)
 		nruns += 2
-		line["flags"] = J{"on": outcomeJ(on), "off": outcomeJ(off), "gated": hasOverdraftOrigin(c)}
+		// flag SETS: a name that gates nothing, next to the gating flag or alone, changes nothing - whatever order the caller's map yields
+		runFlags := func(names ...string) J {
+			fl := map[string]struct{}{}
+			for _, nm := range names {
+				fl[nm] = struct{}{}
+			}
+			o := runParsedFlags(bg, p, copyVars(c.RawVars), fresh(), fl)
+			return outcomeJ(o)
+		}
+		onplus, offplus := []any{}, []any{}
+		others := []string{"experimental-something-else", "a", "zzz-unknown-flag"}
+		for k := 0; k < 6; k++ {
+			o1, o2 := others[k%3], others[(k+1)%3]
+			if k%2 == 0 {
+				onplus = append(onplus, runFlags(o1, interpreter.ExperimentalOverdraftFunctionFeatureFlag, o2))
+			} else {
+				onplus = append(onplus, runFlags(interpreter.ExperimentalOverdraftFunctionFeatureFlag, o1))
+			}
+			offplus = append(offplus, runFlags(o1, o2))
+			nruns += 2
+		}
+		line["flags"] = J{"on": outcomeJ(on), "off": outcomeJ(off), "gated": hasOverdraftOrigin(c), "onplus": onplus, "offplus": offplus}
 		// gated interleavings chosen by TLC (Concurrent.tla), two runs sharing everything
 		gated := []any{}
 		ng := 2
